@@ -279,6 +279,12 @@ def adversarial(draw, allow_conflicts):
         if f == "array" and r < 3:
             stmts.append({"kind": "call", "id": "s%d" % k, "assignees": [target], "f": "<builtin>array",
                           "args": [scalar_expr(0)]})
+        elif f == "array" and r < 5:
+            # a built-in whose result kind follows its argument's kind (which may still be refined later)
+            arrs = [n for n in names if fam[n] == "array"] or [target]
+            bf = draw(st.sampled_from(["<builtin>transpose", "<builtin>transpose", "<builtin>elementwise_abs"]))
+            args = [["var", draw(st.sampled_from(arrs))]] + ([["const", 2]] if bf.endswith("transpose") else [])
+            stmts.append({"kind": "call", "id": "s%d" % k, "assignees": [target], "f": bf, "args": args})
         elif f == "utype" and r < 3:
             ut = [n for n in names if fam[n] == "utype"] or [target]
             stmts.append({"kind": "call", "id": "s%d" % k, "assignees": [target], "f": "<func>f",
